@@ -589,6 +589,20 @@ func initProvenance(spk *ssa.Package, g, src string) string {
 				// helper that builds and returns it) that holds the result of a
 				// constructor call
 				target := peel(cv{st.Val, nil})
+				if ia, isIA := target.v.(*ssa.IndexAddr); isIA && target.f == nil {
+					// &tbls[k] with tbls = h(p_0, ..., p_n), h mapping a constructor
+					// over its arguments element by element
+					if ctor, arg, ok := mappedElement(ia); ok {
+						ld, isLd := peel(cv{arg, nil}).v.(*ssa.UnOp)
+						if !isLd || ld.Op != token.MUL || ld.X != ssa.Value(sv) {
+							return sprintf("the table is built by %s from something other than %s", ctor.Name(), src)
+						}
+						if !strings.HasPrefix(ctor.Name(), "new") {
+							return "the table is not built by a table constructor"
+						}
+						return ""
+					}
+				}
 				al, ok := target.v.(*ssa.Alloc)
 				if !ok || al.Referrers() == nil {
 					return "the global table is not set to the address of a freshly built table"
@@ -620,4 +634,238 @@ func initProvenance(spk *ssa.Package, g, src string) string {
 		}
 	}
 	return "no store to " + g + " in package init"
+}
+
+// mappedElement resolves  &S[k]  (k constant) where S = h(a_0, ..., a_n) is the
+// result of a helper h that builds its result slice by appending f(P[i]) for
+// i = 0..len(P)-1 to an empty slice, P being its (variadic or slice)
+// parameter: then S[k] = f(a_k).  It returns f and a_k.  Everything is checked
+// structurally on the SSA of h (one counting loop over P, one append of one
+// freshly built element per iteration, the loop result returned) and of the
+// call site (the argument slice is a fresh array with one store per index).
+func mappedElement(ia *ssa.IndexAddr) (f *ssa.Function, arg ssa.Value, ok bool) {
+	k, isK := constInt(ia.Index)
+	call, isCall := ia.X.(*ssa.Call)
+	if !isK || !isCall || k < 0 {
+		return nil, nil, false
+	}
+	h := call.Call.StaticCallee()
+	if h == nil || len(h.Blocks) == 0 || len(h.FreeVars) != 0 || h.Pkg == nil || load.Rel(h.Pkg.Pkg) != curveRel {
+		return nil, nil, false
+	}
+	// --- the helper: return of a loop-carried slice ---------------------------------
+	var ret *ssa.Return
+	for _, b := range h.Blocks {
+		for _, in := range b.Instrs {
+			if r, isR := in.(*ssa.Return); isR {
+				if ret != nil {
+					return nil, nil, false
+				}
+				ret = r
+			}
+		}
+	}
+	if ret == nil || len(ret.Results) != 1 {
+		return nil, nil, false
+	}
+	res, isPhi := ret.Results[0].(*ssa.Phi)
+	if !isPhi || len(res.Edges) != 2 {
+		return nil, nil, false
+	}
+	var app *ssa.Call
+	var empty *ssa.MakeSlice
+	for _, e := range res.Edges {
+		switch v := e.(type) {
+		case *ssa.MakeSlice:
+			empty = v
+		case *ssa.Call:
+			app = v
+		}
+	}
+	if app == nil || empty == nil {
+		return nil, nil, false
+	}
+	if n, isC := constInt(empty.Len); !isC || n != 0 {
+		return nil, nil, false
+	}
+	bi, isB := app.Call.Value.(*ssa.Builtin)
+	if !isB || bi.Name() != "append" || len(app.Call.Args) != 2 || app.Call.Args[0] != ssa.Value(res) {
+		return nil, nil, false
+	}
+	// the appended slice: one element, freshly stored
+	sl, isSl := app.Call.Args[1].(*ssa.Slice)
+	if !isSl || sl.Low != nil || sl.High != nil {
+		return nil, nil, false
+	}
+	box, isAl := sl.X.(*ssa.Alloc)
+	if !isAl {
+		return nil, nil, false
+	}
+	if arr, isArr := isArrayPtr(box.Type()); !isArr || arr.Len() != 1 || box.Referrers() == nil {
+		return nil, nil, false
+	}
+	var elem ssa.Value
+	for _, ref := range *box.Referrers() {
+		if ea, isEA := ref.(*ssa.IndexAddr); isEA && ea.Referrers() != nil {
+			for _, r2 := range *ea.Referrers() {
+				if st, isSt := r2.(*ssa.Store); isSt && st.Addr == ssa.Value(ea) {
+					if elem != nil {
+						return nil, nil, false
+					}
+					elem = st.Val
+				}
+			}
+		}
+	}
+	build, isCall2 := elem.(*ssa.Call)
+	if !isCall2 || build.Call.StaticCallee() == nil || len(build.Call.Args) != 1 {
+		return nil, nil, false
+	}
+	// its argument: P[i] with i the loop counter of the loop that carries res
+	ld, isLd := build.Call.Args[0].(*ssa.UnOp)
+	if !isLd || ld.Op != token.MUL {
+		return nil, nil, false
+	}
+	pa, isPA := ld.X.(*ssa.IndexAddr)
+	if !isPA {
+		return nil, nil, false
+	}
+	param, isParam := pa.X.(*ssa.Parameter)
+	if !isParam {
+		return nil, nil, false
+	}
+	pi := -1
+	for i, p := range h.Params {
+		if p == param {
+			pi = i
+		}
+	}
+	if pi < 0 || !countsOverLen(pa.Index, res.Block(), param) || app.Block() == res.Block() || !res.Block().Dominates(app.Block()) {
+		return nil, nil, false
+	}
+	// exactly one append into res per iteration, and nothing else feeds res
+	if res.Referrers() != nil {
+		for _, ref := range *res.Referrers() {
+			switch ref := ref.(type) {
+			case *ssa.Return:
+			case *ssa.Call:
+				if ref != app {
+					return nil, nil, false
+				}
+			case *ssa.DebugRef:
+			default:
+				return nil, nil, false
+			}
+		}
+	}
+	// --- the call site: the argument slice is a fresh array, element k = a_k -----------
+	if pi >= len(call.Call.Args) {
+		return nil, nil, false
+	}
+	as, isSl2 := call.Call.Args[pi].(*ssa.Slice)
+	if !isSl2 || as.Low != nil || as.High != nil {
+		return nil, nil, false
+	}
+	arrAl, isAl2 := as.X.(*ssa.Alloc)
+	if !isAl2 || arrAl.Referrers() == nil {
+		return nil, nil, false
+	}
+	arr, isArr := isArrayPtr(arrAl.Type())
+	if !isArr || k >= arr.Len() {
+		return nil, nil, false
+	}
+	for _, ref := range *arrAl.Referrers() {
+		switch ref := ref.(type) {
+		case *ssa.IndexAddr:
+			idx, isC := constInt(ref.Index)
+			if !isC || ref.Referrers() == nil {
+				return nil, nil, false
+			}
+			for _, r2 := range *ref.Referrers() {
+				st, isSt := r2.(*ssa.Store)
+				if !isSt || st.Addr != ssa.Value(ref) {
+					return nil, nil, false // an element escapes
+				}
+				if idx == k {
+					if arg != nil {
+						return nil, nil, false
+					}
+					arg = st.Val
+				}
+			}
+		case *ssa.Slice:
+			if ref != as {
+				return nil, nil, false
+			}
+		case *ssa.DebugRef:
+		default:
+			return nil, nil, false
+		}
+	}
+	if arg == nil {
+		return nil, nil, false
+	}
+	return build.Call.StaticCallee(), arg, true
+}
+
+// countsOverLen reports whether idx is the counter of the loop headed by hdr
+// and that loop visits 0, 1, ..., len(p)-1: either the rotated form go/ssa
+// builds for range (phi = [-1, idx], idx = phi+1, continue while idx < len(p))
+// or the three-clause form (idx = phi = [0, phi+1], continue while phi < len(p)).
+func countsOverLen(idx ssa.Value, hdr *ssa.BasicBlock, p *ssa.Parameter) bool {
+	if len(hdr.Instrs) == 0 {
+		return false
+	}
+	ifi, ok := hdr.Instrs[len(hdr.Instrs)-1].(*ssa.If)
+	if !ok {
+		return false
+	}
+	cmp, ok := ifi.Cond.(*ssa.BinOp)
+	if !ok || cmp.Op != token.LSS || cmp.X != idx {
+		return false
+	}
+	lenCall, ok := cmp.Y.(*ssa.Call)
+	if !ok {
+		return false
+	}
+	if b, isB := lenCall.Call.Value.(*ssa.Builtin); !isB || b.Name() != "len" || lenCall.Call.Args[0] != ssa.Value(p) {
+		return false
+	}
+	start := func(phi *ssa.Phi, want int64, next ssa.Value) bool {
+		if phi.Block() != hdr || len(phi.Edges) != 2 {
+			return false
+		}
+		seenStart, seenNext := false, false
+		for _, e := range phi.Edges {
+			if c, isC := constInt(e); isC && c == want {
+				seenStart = true
+			} else if e == next {
+				seenNext = true
+			}
+		}
+		return seenStart && seenNext
+	}
+	plusOne := func(v ssa.Value) (*ssa.Phi, bool) {
+		b, ok := v.(*ssa.BinOp)
+		if !ok || b.Op != token.ADD {
+			return nil, false
+		}
+		if c, isC := constInt(b.Y); !isC || c != 1 {
+			return nil, false
+		}
+		phi, ok := b.X.(*ssa.Phi)
+		return phi, ok
+	}
+	switch v := idx.(type) {
+	case *ssa.BinOp: // range form: idx = phi + 1, phi = [-1, idx]
+		phi, ok := plusOne(v)
+		return ok && v.Block() == hdr && start(phi, -1, v)
+	case *ssa.Phi: // three-clause form: phi = [0, phi+1]
+		for _, e := range v.Edges {
+			if ph, ok := plusOne(e); ok && ph == v {
+				return start(v, 0, e)
+			}
+		}
+	}
+	return false
 }
